@@ -980,9 +980,9 @@ class Highlighter(object):
                     token.endchar = t.endchar
             else:
                 yield token
-                token = None
-                # t was not merged, also has to be yielded
-                yield t
+                # t was not merged: it starts the next run of matched tokens
+                # (copied, because analyzers reuse one Token object)
+                token = t.copy()
 
         if token is not None:
             yield token
